@@ -29,6 +29,7 @@ type Harness struct {
 	OneShotChans bool
 	AllowGo      bool
 	Bounds       map[string]int
+	Concrete     []uint64
 }
 
 type Program struct {
